@@ -279,6 +279,209 @@ def _wrap_getitem(bases):
     cls.__getitem__ = wrapped
 
 
+# ---------------------------------------------------------------- rearrangements and reindexing (C10, C07)
+def _struct_result(res, a, maps, extra, a_dtype):
+    """abstract result of a data-moving call: labels through the operand's per-dimension maps (extra: maps of new dimensions)"""
+    import dimarray as da
+    if not isinstance(res, da.DimArray):
+        raise Skip("result is not a DimArray")
+    dims = list(res.dims)
+    labs, kinds = [], []
+    for ax in res.axes:
+        if ax.name in extra:
+            m = extra[ax.name]
+            if m is None:                          # the dummy axis of newaxis: a single label None
+                if ax.values.tolist() != [None]:
+                    labs.append([-99] * ax.size)
+                else:
+                    labs.append([0])
+                kinds.append("n")
+                continue
+        elif ax.name in a.dims:
+            m, _ = maps[list(a.dims).index(ax.name)]
+        else:
+            raise Skip("new dimension in result")
+        kinds.append("i")
+        out = []
+        for v in ax.values.tolist():
+            try:
+                out.append(m[v] if v in m else -99)
+            except TypeError:
+                out.append(-99)
+        labs.append(out)
+    attrs = 0 if not len(res.attrs) else (7 if dict(res.attrs) == dict(a.attrs) else -2)
+    dk = {"f": "f", "i": "i", "u": "i", "b": "b"}.get(res.values.dtype.kind)
+    if dk is None:
+        raise Skip("dtype %s" % res.values.dtype)
+    return dict(dims=dims, kinds=kinds, labs=labs, aattrs=[0] * len(dims), dtype=dk, attrs=attrs, cells=[0] * res.values.size)
+
+
+def _shadow_cells(orig, self, args, kw, result):
+    """the same call on an operand whose values are the cell identifiers; checks that the real call moved data the same way"""
+    import dimarray as da
+    shadow = da.DimArray(np.arange(1, self.values.size + 1, dtype=float).reshape(self.shape), axes=[ax.copy() for ax in self.axes])
+    shadow.attrs.update(self.attrs)
+    sres = orig(shadow, *args, **kw)
+    if not isinstance(sres, da.DimArray) or sres.shape != result.shape:
+        raise Skip("shadow result of another shape")
+    cells = [(-1 if x != x else int(x)) for x in sres.values.ravel().tolist()]
+    real = result.values.ravel()
+    src = self.values.ravel()
+    for pos, c in enumerate(cells):
+        x = real[pos]
+        if c == -1:
+            if x == x:
+                raise Skip("shadow and real results disagree")
+            continue
+        y = src[c - 1]
+        if not (x == y or (x != x and y != y)):
+            raise Skip("shadow and real results disagree")
+    return cells
+
+
+def _pos_of(self, axis):
+    nd = self.ndim
+    if isinstance(axis, str):
+        if axis not in self.dims:
+            raise Skip("unknown dimension")
+        return list(self.dims).index(axis)
+    if isinstance(axis, (int, np.integer)) and not isinstance(axis, bool) and -nd <= axis < nd:
+        return int(axis) % nd
+    raise Skip("axis argument")
+
+
+def _record_struct(name, orig, self, args, kw, result, error):
+    import dimarray as da
+    if type(self) is not da.DimArray:
+        raise Skip("not an in-memory DimArray")
+    if self.values.dtype.kind not in "fiub":
+        raise Skip("dtype")
+    a_abs, maps = _abs_array(self, nan_as_missing=False)
+    nd = self.ndim
+    extra = {}
+    if name == "transpose":
+        if kw:
+            raise Skip("keywords")
+        dims = args
+        if len(dims) == 1 and isinstance(dims[0], (list, tuple)):
+            dims = tuple(dims[0])
+        perm = list(range(nd, 0, -1)) if len(dims) == 0 else [_pos_of(self, d) + 1 for d in dims]
+        if sorted(perm) != list(range(1, nd + 1)):
+            raise Skip("not a permutation")
+        inp = dict(a=a_abs, perm=perm)
+    elif name == "swapaxes":
+        b = dict(zip(("axis1", "axis2"), args))
+        b.update(kw)
+        if set(b) != {"axis1", "axis2"}:
+            raise Skip("arguments")
+        inp = dict(a=a_abs, i=_pos_of(self, b["axis1"]) + 1, j=_pos_of(self, b["axis2"]) + 1)
+    elif name == "squeeze":
+        b = dict(zip(("axis",), args))
+        b.update(kw)
+        if set(b) - {"axis"}:
+            raise Skip("arguments")
+        w = 0
+        if b.get("axis") is not None:
+            w = _pos_of(self, b["axis"]) + 1
+            if self.shape[w - 1] != 1:
+                raise Skip("squeeze of a non-singleton axis")
+        inp = dict(a=a_abs, i=w)
+    elif name == "newaxis":
+        b = dict(zip(("name", "values", "pos"), args))
+        b.update(kw)
+        if set(b) - {"name", "values", "pos"} or not isinstance(b.get("name"), str) or b["name"] in self.dims:
+            raise Skip("arguments")
+        pos = b.get("pos", 0)
+        if type(pos) is not int or not (-1 <= pos <= nd):
+            raise Skip("pos")
+        if pos == -1:
+            pos = nd
+        vals = []
+        extra[b["name"]] = None
+        if b.get("values") is not None:
+            m, order = _axis_map(np.asarray(b["values"]))
+            vals = [m[v] for v in np.asarray(b["values"]).tolist()]
+            extra[b["name"]] = m
+        inp = dict(a=a_abs, name=b["name"], i=pos, vals=vals)
+    elif name == "reindex":
+        b = dict(zip(("values", "axis", "fill_value", "raise_error", "method"), args))
+        b.update(kw)
+        if set(b) - {"values", "axis", "fill_value", "raise_error", "method"} or "values" not in b:
+            raise Skip("arguments")
+        fv = b.get("fill_value", np.nan)
+        if not (isinstance(fv, float) and fv != fv):
+            raise Skip("fill value")
+        method = b.get("method")
+        if method not in (None, "left", "right"):
+            raise Skip("method")
+        d = _pos_of(self, b.get("axis", 0))
+        if isinstance(b["values"], (da.DimArray, da.Dataset)) or hasattr(b["values"], "dims"):
+            raise Skip("values argument")
+        vals = b["values"].values if isinstance(b["values"], da.Axis) else np.asarray(b["values"])
+        if vals.ndim != 1:
+            raise Skip("values argument")
+        amap, order = maps[d]
+        if method is not None and self.axes[d].values.dtype.kind not in "iuf":
+            raise Skip("method on non-numeric labels")
+        new = [_abs_label(v, amap, order) for v in vals.tolist()]
+        # the result axis carries the *new* labels: absent ones map through their in-between code
+        m2 = dict(amap)
+        for v, code in zip(vals.tolist(), new):
+            if v in m2 and m2[v] != code:
+                raise Skip("label coding")
+            m2[v] = code
+        maps = list(maps)
+        maps[d] = (m2, order)
+        name = "reindex"
+        inp = dict(a=a_abs, d=d + 1, new=new, fill=-1, fkind="f", method=method or "none", **{"raise": bool(b.get("raise_error", False))})
+    else:
+        raise Skip("operation")
+    ev = dict(op={"reindex": "reindex"}.get(name, name), **{"in": inp})
+    if error is not None:
+        ev["out"] = dict(ok=False, val=[], err=type(error).__name__)
+        return ev
+    val = _struct_result(result, self, maps, extra, a_abs["dtype"])
+    val["cells"] = _shadow_cells(orig, self, args, kw, result)
+    ev["out"] = dict(ok=True, val=val, err="")
+    return ev
+
+
+def _wrap_method(cls, attr, name):
+    orig = getattr(cls, attr)
+
+    def wrapped(self, *args, **kw):
+        outer = _depth[0] == 0
+        _depth[0] += 1
+        result = error = None
+        try:
+            result = orig(self, *args, **kw)
+            return result
+        except Exception as e:  # noqa
+            error = e
+            raise
+        finally:
+            _depth[0] -= 1
+            if outer:
+                _stats["seen"] += 1
+                try:
+                    _depth[0] += 1
+                    try:
+                        ev = _record_struct(name, orig, self, args, kw, result, error)
+                    finally:
+                        _depth[0] -= 1
+                    ev["id"] = len(_events) + 1
+                    _events.append(ev)
+                    _stats["recorded"] += 1
+                except Skip:
+                    _stats["not_abstractable"] += 1
+                except Exception:  # noqa  the recorder must never disturb the test
+                    _stats["not_abstractable"] += 1
+    wrapped.__doc__ = orig.__doc__
+    wrapped.__name__ = getattr(orig, "__name__", attr)
+    setattr(cls, attr, wrapped)
+
+
+
 def pytest_configure(config):
     if os.environ.get("DIMARRAY_VERIF") != "1" or not _OUT:
         return
@@ -289,6 +492,13 @@ def pytest_configure(config):
     if "take" in what:
         import dimarray.core.bases as bases
         _wrap_getitem(bases)
+    if "reshape" in what:
+        import dimarray as da
+        for attr in ("transpose", "swapaxes", "squeeze", "newaxis"):
+            _wrap_method(da.DimArray, attr, attr)
+    if "reindex" in what:
+        import dimarray as da
+        _wrap_method(da.DimArray, "reindex_axis", "reindex")
 
 
 def pytest_sessionfinish(session, exitstatus):
